@@ -32,6 +32,9 @@ GEN = {
         {"decl": "void usept(Pt *p, const Pt &q)"},
         {"decl": "enum Mode { ONE, TWO }"},
         {"decl": "Mode mode(Mode m)"},
+        # the C return type changed by the user's statements (function and subroutine): the interface declares that type
+        {"decl": "int count_items(int n)", "fstatements": {"c": {"return_type": "long", "ret": ["return 4000000000L + SHC_rv;"]}}},
+        {"decl": "void fill_items(int n)", "fstatements": {"c": {"return_type": "long", "ret": ["return 7L;"]}}},
     ],
 }
 
